@@ -3241,6 +3241,7 @@ class ISLaEmitter(IslaLanguageListener.IslaLanguageListener):
         self.used_variables: Optional[FrozenOrderedSet[str]] = None
 
         self.vars_for_free_nonterminals: Dict[str, BoundVariable] = {}
+        self.shadowed_free_nonterminal_vars: List[Optional[BoundVariable]] = []
         self.vars_for_xpath_expressions: Dict[ParsedXPathExpr, BoundVariable] = {}
 
     def parse_mexpr(self, inp: str, mgr: VariableManager) -> BindExpression:
@@ -3708,12 +3709,24 @@ class ISLaEmitter(IslaLanguageListener.IslaLanguageListener):
     ):
         if not ctx.varId:
             var_type = parse_tree_text(ctx.boundVarType)
+            shadowed = self.vars_for_free_nonterminals.pop(var_type, None)
+            if shadowed is not None:
+                self.used_variables = self.used_variables | FrozenOrderedSet(
+                    [shadowed.name]
+                )
+            self.shadowed_free_nonterminal_vars.append(shadowed)
             self.register_var_for_free_nonterminal(var_type)
 
     def enterForall(self, ctx: IslaLanguageParser.ForallContext):
         self.enterQfdFormula(ctx)
 
     def enterExists(self, ctx: IslaLanguageParser.ExistsContext):
+        self.enterQfdFormula(ctx)
+
+    def enterForallMexpr(self, ctx: IslaLanguageParser.ForallMexprContext):
+        self.enterQfdFormula(ctx)
+
+    def enterExistsMexpr(self, ctx: IslaLanguageParser.ExistsMexprContext):
         self.enterQfdFormula(ctx)
 
     def exitQfdFormula(
@@ -3748,6 +3761,9 @@ class ISLaEmitter(IslaLanguageListener.IslaLanguageListener):
             # This "free" nonterminal is bound now; remove it from
             # the free nonterminals map.
             del self.vars_for_free_nonterminals[var_type]
+            shadowed = self.shadowed_free_nonterminal_vars.pop()
+            if shadowed is not None:
+                self.vars_for_free_nonterminals[var_type] = shadowed
             # ... and the XPath expressions map.
             for segments, final_var in list(self.vars_for_xpath_expressions.items()):
                 if segments[0][0][0] == var_type:
